@@ -257,16 +257,16 @@ fn build_artifact(kind: &str, aseed: u64, n: u32, root: &std::path::Path) -> Res
             let file = std::fs::read_dir(&dir).map_err(|e| e.to_string())?.flatten().map(|e| e.path()).filter(|p| p.extension().is_some_and(|x| x == "idx")).max_by_key(|p| std::fs::metadata(p).map(|m| m.len()).unwrap_or(0)).ok_or("no .idx file written")?;
             let fname = file.file_name().map(|f| f.to_os_string()).ok_or("no file name")?;
             let bytes = std::fs::read(&file).map_err(|e| e.to_string())?;
+            // (one runtime and one directory per artifact: a run performs thousands of these loads)
+            let rt = super::paused_runtime();
             let load = move |b: &[u8], tag: &str| -> Result<String, String> {
                 let d = root_of_loads(&file).join(tag);
-                let _ = std::fs::remove_dir_all(&d);
                 std::fs::create_dir_all(&d).map_err(|e| e.to_string())?;
                 std::fs::write(d.join(&fname), b).map_err(|e| e.to_string())?;
                 let mut fresh = IndexManager::new(&d);
-                super::paused_runtime().block_on(fresh.load_all()).map_err(|e| e.to_string())?;
+                rt.block_on(fresh.load_all()).map_err(|e| e.to_string())?;
                 let mut v: Vec<String> = fresh.iter_entries().map(|(b, e)| format!("{b}:{e:?}")).collect();
                 v.sort();
-                let _ = std::fs::remove_dir_all(&d);
                 Ok(v.join(";"))
             };
             let orig = load(&bytes, "orig")?;
@@ -585,6 +585,11 @@ impl Scenario for Corrupt {
             Tier::Quick => 1_600,
             Tier::Thorough => 40_000,
         }
+    }
+
+    /// one run is thousands of loads of a corrupted file: generous, so that a loaded machine is not mistaken for a hang
+    fn watchdog_ms(&self) -> u64 {
+        90_000
     }
 
     fn generate(&self, rng: &mut Rng, _tier: Tier) -> Case {
